@@ -631,7 +631,7 @@ def run_contract(table, registry, contract, feas_timeout_ms=2000, max_paths=400)
     res.source = {'file': os.path.relpath(fi.module.path, '/'), 'qualname': fi.qualname, 'lines': fi.lines(),
                   'body_sha256': fi.body_hash()}
     cm = contract.module
-    explorer = Explorer(feas_timeout_ms, max_paths)
+    explorer = Explorer(getattr(contract, 'feas_ms', None) or feas_timeout_ms, max_paths)
     finals = []
 
     def entry(run):
